@@ -84,6 +84,7 @@ type Spec struct {
 	// arrives (H264 without marker).  Not used by encoders of this library; kept for C07's bound.
 	MaxFrameBytes int // C08: no returned frame exceeds this many payload bytes (0 = unchecked)
 	RetainBound   int // C08: retained bytes ≤ this after every call (0 = unchecked)
+	SliceSlack    int // C08: retained slices ≤ retained bytes + this (0 → 256)
 
 	Classify func(err error) string // "more" | "nonstart" | "err"
 	// FrameEq overrides byte-wise frame comparison (M-JPEG).
@@ -92,6 +93,15 @@ type Spec struct {
 	Hostile func(r *rand.Rand) []byte
 	// KnownKeys maps a failing clause to a known-finding key for this codec (optional).
 	KnownKey func(clause string, detail string) string
+}
+
+// sliceSlack: how many empty slices a decoder may legitimately hold (SliceSlack, default 256: a
+// handful of empty units per frame is harmless, unbounded accumulation is not).
+func (s *Spec) sliceSlack() int {
+	if s.SliceSlack > 0 {
+		return s.SliceSlack
+	}
+	return 256
 }
 
 func unitsStr(f Frame) string {
@@ -161,6 +171,53 @@ func Retained(ptr any) int {
 		v = v.Elem()
 	}
 	return retainedVal(v, 0)
+}
+
+// RetainedSlices counts the byte slices a decoder struct keeps referenced (elements of every
+// [][]byte / [][][]byte field, recursively), empty ones included: a decoder that accumulates
+// empty fragments pins their packet buffers without `Retained` ever growing.
+func RetainedSlices(ptr any) int {
+	v := reflect.ValueOf(ptr)
+	if v.Kind() == reflect.Pointer {
+		v = v.Elem()
+	}
+	return retainedSlicesVal(v, 0)
+}
+
+func retainedSlicesVal(v reflect.Value, depth int) int {
+	if depth > 6 {
+		return 0
+	}
+	switch v.Kind() {
+	case reflect.Slice:
+		if v.Type().Elem().Kind() == reflect.Uint8 {
+			return 1
+		}
+		n := 0
+		for i := 0; i < v.Len(); i++ {
+			n += retainedSlicesVal(v.Index(i), depth+1)
+		}
+		return n
+	case reflect.Struct:
+		n := 0
+		for i := 0; i < v.NumField(); i++ {
+			f := v.Field(i)
+			if f.Kind() == reflect.Slice && f.Type().Elem().Kind() == reflect.Uint8 {
+				continue // a plain []byte field is one buffer, not an accumulating list
+			}
+			if !f.CanInterface() && f.CanAddr() {
+				f = reflect.NewAt(f.Type(), unsafe.Pointer(f.UnsafeAddr())).Elem()
+			}
+			n += retainedSlicesVal(f, depth+1)
+		}
+		return n
+	case reflect.Pointer, reflect.Interface:
+		if v.IsNil() {
+			return 0
+		}
+		return retainedSlicesVal(v.Elem(), depth+1)
+	}
+	return 0
 }
 
 func retainedVal(v reflect.Value, depth int) int {
@@ -669,6 +726,16 @@ func hostileStream(c *corr.Ctx, s *Spec, inst *Instance, pkts []*rtp.Packet, com
 		if ret > maxRet {
 			maxRet = ret
 		}
+		// slices: every retained non-empty slice accounts for at least one retained byte, so a
+		// decoder within its byte bound holds at most bound-many slices unless it accumulates
+		// EMPTY fragments (which pin their packet buffers just the same)
+		if s.RetainBound > 0 {
+			if ns := RetainedSlices(dec.State()); ns > ret+s.sliceSlack() {
+				r.viol("C08", "retained memory stays below the format's bound (maximum frame size plus a packet)", "unbounded-slices",
+					fmt.Sprintf("after packet %d the decoder retains %d slices holding only %d bytes (empty fragments accumulate)", j, ns, ret))
+				break
+			}
+		}
 		if s.RetainBound > 0 && ret > s.RetainBound {
 			r.viol("C08", "retained memory stays below the format's bound (maximum frame size plus a packet)", "unbounded",
 				fmt.Sprintf("after packet %d the decoder retains %d bytes > bound %d", j, ret, s.RetainBound))
@@ -801,12 +868,23 @@ func GenericHostile(c *corr.Ctx, s *Spec, name string, long bool) {
 		if long {
 			n = 4000
 		}
+		// header-only continuation fragments: payloads cut down to their first 1..4 bytes carry no
+		// data, so a decoder that appends them never reaches its byte cap
+		headerOnly := rg.IntN(2) == 0
+		hk := 1 + rg.IntN(4)
+		if long && headerOnly {
+			n = 20000
+		}
 		for i := 0; i < n; i++ {
 			q := pick.Clone()
 			q.SequenceNumber = seq
 			q.Timestamp = first.Timestamp
 			q.Marker = false
-			if long && len(q.Payload) > 2 { // big payloads reach the size caps quickly
+			if headerOnly {
+				if len(q.Payload) > hk {
+					q.Payload = q.Payload[:hk]
+				}
+			} else if long && len(q.Payload) > 2 { // big payloads reach the size caps quickly
 				big := make([]byte, 60000)
 				copy(big, q.Payload)
 				for k := len(q.Payload); k < len(big); k++ {
